@@ -38,6 +38,7 @@ type FSAccess struct {
 }
 
 type fsNode struct {
+	touched bool
 	dir     bool
 	data    []byte
 	mode    os.FileMode
@@ -113,7 +114,7 @@ func (f *simFS) snapshot() (map[string][]byte, []string) {
 	for p, n := range f.nodes {
 		if n.dir {
 			dirs = append(dirs, p)
-		} else {
+		} else if n.touched || f.w.Spec.DiskAll {
 			files[p] = n.data
 		}
 	}
@@ -390,6 +391,7 @@ func WriteFile(name string, data []byte, perm os.FileMode) error {
 		f.room += int64(len(n.data))
 	}
 	n.data = n.data[:0:0] // truncate
+	n.touched = true
 	n.writers++
 	if n.writers > 1 {
 		f.w.Res.Counters["fs.concurrent-writers"]++
